@@ -95,6 +95,10 @@ func (c *Ctx) doneIsErrorFor(keys ...string) {
 	c.obs = nil
 	c07DoneIsError(c)
 	all := c.obs
+	// a polled ctx.Err() must not end in success either (workers that "stop promptly" and return nil)
+	c.obs = nil
+	c07ErrIsError(c)
+	polled := c.obs
 	c.obs = saved
 	for _, k := range keys {
 		n := 0
@@ -103,6 +107,12 @@ func (c *Ctx) doneIsErrorFor(keys ...string) {
 				o.Rule = c.curRule
 				c.obs = append(c.obs, o)
 				n++
+			}
+		}
+		for _, o := range polled {
+			if strings.HasPrefix(o.Construct, k+"#") || strings.HasPrefix(o.Construct, k+"$") {
+				o.Rule = c.curRule
+				c.obs = append(c.obs, o)
 			}
 		}
 		if n == 0 {
